@@ -17,12 +17,11 @@ Definition c10_needs_json_escape (p : pos) (s : bytes) : bool :=
 Definition c10_validator_needs_json_escape (p : pos) (s : bytes) : bool :=
   val_pos_borrowed p && needs_escape s.
 
-(** C10: create_object stores [object_id.trim()] while every other command looks
-    the object up under the untrimmed string. *)
-Definition c10_id_trimmed (id : bytes) : bool := negb (bytes_eqb (rust_trim id) id).
-
 (** The former classes cdir-empty and cdir-collides-with-inventory were repaired in
     /repo by d88c1da (create_object refuses a blank content directory and every name
-    that is `inventory.json` or begins with `inventory.json.`, repo.rs:574-583); their
+    that is `inventory.json` or begins with `inventory.json.`, repo.rs:581-590); their
     classifiers are gone, the theorems of Props/C10.v hold for those inputs
-    unconditionally ([Json.create_object_cdir]). *)
+    unconditionally ([Json.create_object_cdir]).
+    The former class id-trimmed was repaired by 031a721 (create_object stores the id
+    exactly as given and refuses an id that is blank after trimming, repo.rs:551-557):
+    [Json.create_object_id] returns the id itself, no classifier is left. *)
